@@ -144,7 +144,9 @@ int read_amiga(const char *filename, Memory *memory)
         running = 0;
         break;
       default:
-        if (length == 0)
+        // A size of 0 or less (0xfffffffc is -4: back onto this hunk's
+        // type) never gets to the end of the file.
+        if (length <= 0)
         {
           fclose(in);
           return -1;
